@@ -39,11 +39,21 @@ finally:
 ok = report.get("patch_applies") and report.get("tests_passed_with_patch") == 263 and report.get("demo_original_exit") == 0 and report.get("demo_patched_exit") == 1
 report["confirmed"] = bool(ok)
 print(json.dumps(report, indent=1))
+if not ok and src.startswith("/verif/seeded/"):
+    # keep the record up to date even when the patch went stale (e.g. the code it touches was repaired)
+    try:
+        meta = json.load(open(os.path.join(src, "meta.json")))
+        meta["verification_latest"] = report
+        json.dump(meta, open(os.path.join(src, "meta.json"), "w"), indent=1)
+    except Exception:
+        pass
 if ok:
-    dst = f"/verif/seeded/{pid}-{name}"
+    inplace = src.startswith("/verif/seeded/")
+    dst = src if inplace else f"/verif/seeded/{pid}-{name}"
     os.makedirs(dst, exist_ok=True)
-    for fn in ("patch.diff", "demo.py"):
-        shutil.copy(os.path.join(src, fn), dst)
+    if not inplace:
+        for fn in ("patch.diff", "demo.py"):
+            shutil.copy(os.path.join(src, fn), dst)
     meta = json.load(open(os.path.join(src, "meta.json")))
     meta["verification"] = report
     json.dump(meta, open(os.path.join(dst, "meta.json"), "w"), indent=1)
